@@ -49,6 +49,17 @@ CHECKS = {
         design_ref="DESIGN.md section 8, C18",
         technique="Lean 4 structural-induction theorems about a model of connector_factory + exact input/output correspondence with the real constructors, renderer and ==",
     ),
+    "C08": dict(
+        category="proof",
+        text=("The accept/reject decision is modelled in Lean (Models/Cost.lean: improves, hasBeenOptimized) and proved to be exactly the "
+              "property's wording (improves_spec: strictly better in the criterion, or equal with nothing worse and something better; "
+              "accepted_not_worse per criterion; costs_append: additivity). Tie: shape-exhaustive correspondence of the real "
+              "improves_criterion with the model on all small tuples, per-instruction comparison of the tool's accounting with an "
+              "independent cost table written in Lean, and every emitted block (3 criteria x split modes x PUSH0) judged by `acceptable` in "
+              "that independent measure."),
+        design_ref="DESIGN.md section 8, C08",
+        technique="Lean 4 theorem about the decision function + exhaustive correspondence on small tuples + independent Lean cost measure over real outputs",
+    ),
 }
 
 NOT_APPLICABLE = [
